@@ -57,6 +57,11 @@ func (w *wbuild) setupFaults(m *Machine) {
 		}
 	case "crash":
 		fs.crash, fs.signal = true, false
+	case "damage":
+		// only losses between invocations: every invocation itself runs fault-free, so the
+		// executed sets stay decidable (C02 after a loss: the first build repairs, the next is a no-op)
+		fs.kinds = map[string]bool{}
+		fs.crash, fs.signal, fs.damage = false, false, true
 	}
 	w.fs = fs
 	simos.Plan = &simos.FaultPlan{
